@@ -196,12 +196,7 @@ pub fn run_c05(cx: &Ctx) -> i32 {
     )
 }
 
-pub fn run_c09(cx: &Ctx) -> i32 {
-    let k = if cx.quick() { 3 } else { 5 };
-    let space = unr_space(k);
-    let alphabet = vec!['a', 'b', 'é', '\n'];
-    let max_len = 3;
-    let texts = space::texts(&alphabet, max_len);
+fn c09_pass(space: &crate::spaces::Space, texts: &[String], few_offsets: bool) -> Tally {
     let tallies = par::run_workers(32, |_w, claimer| {
         engine::quiet_panics();
         engine::set_sweep_horizons(40_000, 2_000);
@@ -236,9 +231,9 @@ pub fn run_c09(cx: &Ctx) -> i32 {
                     "summary" => format!("/{}/ on {:?} (pos {}): {}", pattern, text, pos, what)},
                 );
             };
-            for text in &texts {
+            for text in texts {
                 let mut any = false;
-                for pos in space::offsets(text) {
+                for pos in space::offsets(text).into_iter().filter(|&p| !few_offsets || p == 0 || p == 1 || p == text.len() / 2) {
                     t.evaluations += 1;
                     let f = engine::find_at(&re, text, pos);
                     let c = engine::captures_at(&re, text, pos);
@@ -294,14 +289,31 @@ pub fn run_c09(cx: &Ctx) -> i32 {
         });
         t
     });
-    let t = Tally::merge_all(tallies);
+    Tally::merge_all(tallies)
+}
+
+pub fn run_c09(cx: &Ctx) -> i32 {
+    let k = if cx.quick() { 3 } else { 5 };
+    let space = unr_space(k);
+    let alphabet = vec!['a', 'b', 'é', '\n'];
+    let max_len = 3;
+    let texts = space::texts(&alphabet, max_len);
+    let mut t = c09_pass(&space, &texts, false);
+    // tall pass: every context x one-node fillers over long regular texts (32 and more bytes:
+    // prefilters and skip-ahead shortcuts that only one of two sibling entry points takes)
+    let tall_space = crate::spaces::Space::new().ctxfill(1, 1, &|_| true);
+    let tall_texts = crate::refsweep::tall_texts(if cx.quick() { 40 } else { 72 });
+    let t2 = c09_pass(&tall_space, &tall_texts, true);
+    t.count("tall_sweep_programs", t2.programs);
+    t.count("tall_sweep_evaluations", t2.evaluations);
+    t.merge(t2);
     finish(
         cx,
         t,
         Finish {
             rule: format!(
-                "every pattern of {} (patterns with backreferences also spelled with relative \\k<-n> and named \\k<n> references) x every text over {:?} up to length {} x every offset: is_match <=> find is Some <=> captures is Some; captures_from_pos(t,p).get(0) == find_from_pos(t,p); captures_iter yields exactly the spans find_iter yields, in order (an Err from one entry point must be an Err from its sibling); no reference model involved; non-trivial = (pattern,text) VM-compiled with at least one match",
-                space.describe(), alphabet, max_len
+                "every pattern of {} (patterns with backreferences also spelled with relative \\k<-n> and named \\k<n> references) x every text over {:?} up to length {} x every offset: is_match <=> find is Some <=> captures is Some; captures_from_pos(t,p).get(0) == find_from_pos(t,p); captures_iter yields exactly the spans find_iter yields, in order (an Err from one entry point must be an Err from its sibling); no reference model involved; non-trivial = (pattern,text) VM-compiled with at least one match; plus a tall pass: every context x one-node fillers ({}) over long regular texts (a^n, a^n b, b a^n, (ab)^n, a^n e-acute; n up to 40 quick / 72 thorough) from the offsets 0, 1 and the middle, same oracles",
+                space.describe(), alphabet, max_len, tall_space.describe()
             ),
             exhaustive: true,
             bounds: jobj! {"space" => space.describe(), "max_text_len" => max_len, "node_bound" => k},
